@@ -32,6 +32,9 @@ EXPLANATION = (
     "[e^-g, e^g]], prefactor exp(-dt U/2) and gamma = arccosh(exp(dt U/2)) read the same coupling (u on "
     "site, u_1 for neighbours); SIB-1: the tables are the same function of (dt, U) in the fast and the "
     "slow classes. "
+    "DET-1: the variate compared with the field-0 probability is the normal CDF of the Gaussian field, "
+    "(erf(g / sqrt 2) + 1) / 2 or ndtr(g); the scale of the argument is checked numerically from the "
+    "literal. "
 )
 NOT_DECIDED = (
     "exact unbiasedness over the 2^n field configurations; correctness of the Wick ratio and the "
